@@ -544,3 +544,74 @@ Example stale_quote_does_not_replace_reference :
   snd (run_deliveries [] [(1000 * NS, 1, mq 980 5 10); (1000 * NS, 1, mq 900 5 5); (1000 * NS, 1, mq 995 5 7)])
   = [false; false; true].
 Proof. vm_compute. reflexivity. Qed.
+
+(* ================================================================ the quoting duty (ant-node/src/quote.rs) *)
+Lemma quote_gap_constant_ok : Consts.quote_time_gap_secs = 10.
+Proof. reflexivity. Qed.
+
+Lemma storecost_ok_iff_lemma K now self_key q addr :
+  verify_quote_for_storecost K now self_key q addr = SOk <->
+  addr = content q /\ has_expired now q = false /\
+  interp K (signature q) = Sig self_key (bytes_for_signing q).
+Proof.
+  unfold verify_quote_for_storecost.
+  destruct (bytes_eqb addr (content q)) eqn:E; cbn [negb].
+  - apply list_eqb_eq in E.
+    destruct (has_expired now q); [split; [discriminate|intros (_ & H & _); discriminate]|].
+    destruct (sig_verify self_key (bytes_for_signing q) (interp K (signature q))) eqn:V; cbn [negb].
+    + apply sig_verify_iff in V. split; auto.
+    + split; [discriminate|]. intros (_ & _ & H). apply sig_verify_iff in H. congruence.
+  - split; [discriminate|]. intros (H & _). subst. rewrite list_eqb_refl in E. discriminate.
+Qed.
+
+(* every pair handed to the swarm driver is one of the delivered pairs, is not this node's own,
+   is about the same content as this node's quote, and VERIFIES for the peer it is attributed to;
+   and nothing is handed down unless this node itself is a valid, unexpired quoter *)
+Lemma forwarded_quotes_verify_lemma K now self_peer self_key quotes out :
+  quotes_verification K now self_peer self_key quotes = Some out ->
+  (exists sq, In (self_peer, sq) quotes /\ has_expired now sq = false /\
+              interp K (signature sq) = Sig self_key (bytes_for_signing sq) /\
+              forall p q, In (p, q) out ->
+                In (p, q) quotes /\ check_signed K q p = true /\ p <> self_peer /\
+                content q = content sq /\ around_same_time q sq = true).
+Proof.
+  unfold quotes_verification.
+  destruct (find (fun pq : list N * quote => bytes_eqb (fst pq) self_peer) quotes) as [[p0 sq]|] eqn:F;
+    [|discriminate].
+  apply find_some in F as [Fin Feq]. cbn [fst] in Feq. apply list_eqb_eq in Feq. subst p0.
+  destruct (verify_quote_for_storecost K now self_key sq (content sq)) eqn:V; try discriminate.
+  apply storecost_ok_iff_lemma in V as (_ & Hexp & Hsig).
+  intros E. injection E as <-. exists sq. repeat split; try assumption.
+  - apply filter_In in H. tauto.
+  - apply filter_In in H as [_ H]. unfold duty_keep in H. cbn [fst snd] in H.
+    repeat (apply andb_prop in H as [H ?]). assumption.
+  - apply filter_In in H as [_ H]. unfold duty_keep in H. cbn [fst snd] in H.
+    repeat (apply andb_prop in H as [H ?]). intros ->. rewrite list_eqb_refl in H2. discriminate.
+  - apply filter_In in H as [_ H]. unfold duty_keep in H. cbn [fst snd] in H.
+    repeat (apply andb_prop in H as [H ?]). now apply list_eqb_eq.
+  - apply filter_In in H as [_ H]. unfold duty_keep in H. cbn [fst snd] in H.
+    repeat (apply andb_prop in H as [H ?]). assumption.
+Qed.
+
+(* a quote with the claimed peer's key but altered signed fields under a stale signature is never
+   forwarded *)
+Lemma forged_quote_not_forwarded_lemma K now self_peer self_key quotes out p q q0 :
+  quotes_verification K now self_peer self_key quotes = Some out ->
+  wf_quote q = true -> wf_quote q0 = true -> check_signed K q0 p = true ->
+  signature q = signature q0 -> signed_fields q <> signed_fields q0 -> ~ In (p, q) out.
+Proof.
+  intros Hq W W0 C S D Hin.
+  destruct (forwarded_quotes_verify_lemma _ _ _ _ _ _ Hq) as (sq & _ & _ & _ & Hall).
+  destruct (Hall _ _ Hin) as (_ & Hc & _).
+  rewrite (any_field_mutation_fails_lemma K q0 q p p W0 W C S (or_introl D)) in Hc. discriminate.
+Qed.
+
+Example duty_forwards_genuine_only :
+  let me := mq 100 1 1 in
+  let K := mkK [([8; 1], 5)] [(5, [0; 5])] [] [([1; 2; 3], Sig 5 (bytes_for_signing q0)); ([9], Sig 7 (bytes_for_signing (with_ts q0 (timestamp q0 + NS))))] in
+  let mine := {| content := content q0; timestamp := timestamp q0 + NS; qmetrics := qmetrics q0;
+                 rewards_address := rewards_address q0; pub_key := []; signature := [9] |} in
+  let forged := with_metrics q0 (qmetrics me) in
+  quotes_verification K (timestamp q0 + 5 * NS) [0; 7] 7 [([0; 7], mine); ([0; 5], q0); ([0; 5], forged)]
+  = Some [([0; 5], q0)].
+Proof. vm_compute. reflexivity. Qed.
